@@ -18,7 +18,7 @@ import (
 var setReadOnly = []string{"Has", "Len", "Copy", "Union", "Intersects", "Complement", "Equal", "String"}
 
 func checkC16(c *Check) {
-	c.Explain = "Three groups of rules on set/set.go. (1) R-set-semantics + R-order-invariant: the source of the set package is evaluated (E1 interpreter, nil dereference = panic) on every history of at most 3 Add/AddRange calls over the universe [0,4] (thorough: [0,6]) and on every pair of histories of at most 2 calls; Has on every point, Len, String, Copy (equal and independent), Complement(limit) for every limit covering the set (contents, Has, Len, double complement, receiver unchanged), Union, Intersects, Equal are compared with the corresponding set of integers. R-order-invariant is the structural condition that makes the small universe representative: outside Len/String the code only compares code points with each other or with 0, copies them and steps them by one, so behaviour depends only on the order-and-adjacency pattern of the values and every pattern for these history sizes occurs in the universe. (2) R-sentinel-guard — every dereference of a value loaded from <operand>.Head.Forward or <operand>.Tail.Backward (nil exactly on the empty set) in the read-only methods lies only on feasible CFG paths whose branch facts imply the link is non-nil (directly or through Len()≠0 with Len's summary derived from its body): this part holds for sets of any size. (3) R-operand-pure — every store in the read-only methods goes through a pointer whose origin is an allocation of the same call, mutating methods are only called on fresh receivers, returned sets are fresh: any size. NOT decided: histories with more than 3 insertions (list-walk induction over arbitrarily many intervals), arithmetic overflow at the int32 boundary (the interpreter computes in int64), inverted ranges (begin > end), sets reaching beyond the Complement limit."
+	c.Explain = "Three groups of rules on set/set.go. (1) R-set-semantics + R-order-invariant: the source of the set package is evaluated (E1 interpreter, nil dereference = panic) on every history of at most 3 Add/AddRange calls over the universe [0,4] (thorough: [0,6]) and on every pair of histories of at most 2 calls; Has on every point, Len, String, Copy (equal and independent), Complement(limit) for every limit covering the set (contents, Has, Len, double complement, receiver unchanged), Union, Intersects, Equal are compared with the corresponding set of integers. R-order-invariant is the structural condition that makes the small universe representative: outside Len/String the code only compares code points with each other or with 0, copies them and steps them by one, so behaviour depends only on the order-and-adjacency pattern of the values and every pattern for these history sizes occurs in the universe. (2) R-sentinel-guard — every dereference of a value loaded from <operand>.Head.Forward or <operand>.Tail.Backward (nil exactly on the empty set) in the read-only methods lies only on feasible CFG paths whose branch facts imply the link is non-nil (directly or through Len()≠0 with Len's summary derived from its body): this part holds for sets of any size. (3) R-operand-pure — every store in the read-only methods goes through a pointer whose origin is an allocation of the same call, mutating methods are only called on fresh receivers, returned sets are fresh: any size. NOT decided: histories with more than 3 insertions (list-walk induction over arbitrarily many intervals), arithmetic overflow at the int32 boundary (the interpreter computes in int64). Inverted ranges (they denote nothing) and Complement limits below the largest element are part of the evaluation; a call that gives no result within 20000 statements on these tiny sets is reported as non-termination."
 	c.Assume = []string{"NewSet leaves Head.Forward and Tail.Backward nil and they are non-nil after the first insertion (checked: R-newset-shape)", "a non-tail list node has a non-nil Forward link (list-shape invariant of AddRange; holds on every evaluated history, not decided beyond them)"}
 	c.Trusted = []string{"go/ssa of golang.org/x/tools v0.50.0", "interp.go (the Go-subset interpreter)"}
 	r := mustRepo(c)
